@@ -423,6 +423,108 @@ theorem profile_getElem_some {α : Type} {R k h bc : Nat} {scans : List ScanRec}
   simp only [Option.bind_some]
   rw [List.getElem?_eq_getElem]
 
+/-! ## stacking -/
+
+theorem allSome_map_of_forall {β γ : Type} (l : List β) (f : β → Option γ) (g : β → γ)
+    (h : ∀ x ∈ l, f x = some (g x)) : allSome (l.map f) = some (l.map g) := by
+  induction l with
+  | nil => rfl
+  | cons x xs ih =>
+    rw [List.map_cons, h x (by simp)]
+    simp only [allSome]
+    rw [ih (fun y hy => h y (by simp [hy]))]
+    rfl
+
+theorem allSome_map_some {β : Type} (l : List β) : allSome (l.map some) = some l := by
+  have := allSome_map_of_forall l some id (fun _ _ => rfl)
+  simpa using this
+
+theorem allSome_eq_some {β : Type} (l : List (Option β)) (r : List β) (h : allSome l = some r) :
+    l = r.map some := by
+  induction l generalizing r with
+  | nil => simp [allSome] at h; subst h; rfl
+  | cons x xs ih =>
+    cases x with
+    | none => simp [allSome] at h
+    | some v =>
+      simp only [allSome] at h
+      cases hx : allSome xs with
+      | none => rw [hx] at h; simp at h
+      | some t =>
+        rw [hx] at h
+        simp only [Option.map_some, Option.some.injEq] at h
+        subst h
+        rw [ih t hx]
+        rfl
+
+theorem mem_files_of_lines {α : Type} (files : List (DataFile α)) (lines : List Name) (dfs : List (DataFile α))
+    (h : allSome (lines.map (findFile files)) = some dfs) : ∀ f ∈ dfs, f ∈ files := by
+  intro f hf
+  have e := allSome_eq_some _ _ h
+  have : some f ∈ lines.map (findFile files) := by rw [e]; exact List.mem_map.mpr ⟨f, hf, rfl⟩
+  obtain ⟨n, _, hn⟩ := List.mem_map.mp this
+  exact List.mem_of_find?_eq_some hn
+
+theorem column_getElem {α : Type} (profile : List (List α)) (j : Nat)
+    (h : ∀ row ∈ profile, ∃ v, row[j]? = some v) (r : Nat) :
+    (column profile j)[r]? = (profile[r]?).bind (fun row => row[j]?) := by
+  unfold column
+  induction profile generalizing r with
+  | nil => simp
+  | cons row rest ih =>
+    obtain ⟨v, hv⟩ := h row (by simp)
+    rw [List.filterMap_cons, hv]
+    cases r with
+    | zero => simp [hv]
+    | succ r' =>
+      simp only [List.getElem?_cons_succ]
+      exact ih (fun x hx => h x (by simp [hx])) r'
+
+theorem column_length {α : Type} (profile : List (List α)) (j : Nat)
+    (h : ∀ row ∈ profile, ∃ v, row[j]? = some v) : (column profile j).length = profile.length := by
+  unfold column
+  induction profile with
+  | nil => rfl
+  | cons row rest ih =>
+    obtain ⟨v, hv⟩ := h row (by simp)
+    rw [List.filterMap_cons, hv]
+    simp only [List.length_cons]
+    rw [ih (fun x hx => h x (by simp [hx]))]
+
+theorem decodeMass_eq_column {α : Type} {R k h bc : Nat} {scans : List ScanRec} {profile : List (List α)}
+    (L : Layout R k h bc scans profile) (j : Nat) (hj : j < k) :
+    decodeMass k scans profile (j + 1) = (column profile j).map some := by
+  have hcol : ∀ row ∈ profile, ∃ v, row[j]? = some v := by
+    intro row hrow
+    have := L.width row hrow
+    exact ⟨row[j], by rw [List.getElem?_eq_getElem]⟩
+  apply List.ext_getElem?
+  intro r
+  by_cases hr : r < R
+  · rw [decodeMass_getElem L r j hr hj, List.getElem?_map, column_getElem profile j hcol r]
+    obtain ⟨v, hv⟩ := profile_getElem_some L r j hr hj
+    rw [hv]; rfl
+  · have h1 : (decodeMass k scans profile (j + 1)).length ≤ r := by
+      unfold decodeMass; rw [List.length_map, L.nscans]; omega
+    have h2 : ((column profile j).map some).length ≤ r := by
+      rw [List.length_map, column_length profile j hcol, L.nprofile]; omega
+    rw [List.getElem?_eq_none h1, List.getElem?_eq_none h2]
+
+theorem decode_allSome {α : Type} {R k h bc : Nat} {scans : List ScanRec} {profile : List (List α)}
+    (L : Layout R k h bc scans profile) :
+    allSome ((decode (List.range' 1 k) scans profile).map allSome) = some ((List.range k).map (column profile)) := by
+  unfold decode
+  rw [List.length_range', List.map_map]
+  have hr : List.range' 1 k = (List.range k).map (· + 1) := by
+    apply List.ext_getElem
+    · simp
+    · intro i h1 h2; simp; omega
+  rw [hr, List.map_map]
+  apply allSome_map_of_forall
+  intro j hj
+  simp only [Function.comp]
+  rw [decodeMass_eq_column L j (List.mem_range.mp hj), allSome_map_some]
+
 /-! ## scan time -/
 
 theorem sum_diffs (a : Rat) (l : List Rat) : (diffs (a :: l)).sum = (a :: l).getLastD 0 - a := by
